@@ -584,6 +584,26 @@ class Executor(object):
                 return [(st, "ok", VT(tm.or_(*[tm.eq(item.t, tm.S(k)) for k in items if isinstance(k, str)])))]
         if isinstance(container, VObj):
             return self.call_method(container, "__contains__", [item], {}, st, fr)
+        if isinstance(container, (VTuple, VList)):
+            # language reference 6.10.2: `x in y` for a tuple / list is any(x is e or x == e for e in y)
+            elems = list(container.items if isinstance(container, VTuple) else st.get(container, "items"))
+            outs = [(st, tm.FALSE)]
+            for e in elems:
+                nxt = []
+                for (s, acc) in outs:
+                    same = self.identical(s, item, e)
+                    for (s2, tag, c) in self.equals(item, e, s, fr) if not (tm.is_const(same) and tm.cval(same)) else [
+                            (s, "ok", VT(tm.TRUE))]:
+                        if tag != "ok":
+                            # an exception out of __eq__ only happens if no earlier element matched
+                            nxt.append((s2.assume(tm.not_(acc)), tag, c))
+                            continue
+                        nxt.append((s2, tm.or_(acc, same, c.t)))
+                outs = [o for o in nxt if len(o) == 2]
+                raised = [o for o in nxt if len(o) == 3]
+                if raised:
+                    raise Unsupported("exception out of __eq__ inside a membership test")
+            return [(s, "ok", VT(acc)) for (s, acc) in outs]
         if isinstance(container, VT) and container.t.sort.startswith("(Seq"):
             e = self.models.as_elem(self, st, item, tm.elem_sort(container.t.sort))
             return [(st, "ok", VT(T("seq.contains", (container.t, tm.sequnit(e)), BOOL)))]
@@ -685,6 +705,11 @@ class Executor(object):
         deps = [c for c in mro if not isinstance(c, ClassInfo) and c != "object"]
         if deps:
             raise Unsupported("attribute %s of dependency kind %s is not modelled" % (attr, deps[0]))
+        if self_val is not None and st.get(self_val, "__constructed__") is not True:
+            # an object described by a sidecar contract (setup / result skeleton), not built by the real constructor
+            # on this path: the contract cannot know an attribute that a changed constructor now sets, so this is a
+            # gap of the description, never an AttributeError of the code -> the function is unreached
+            raise Unsupported("attribute %s of a %s described by a contract (not constructed on this path)" % (attr, kind))
         return self.raise_(st, "AttributeError", VT(tm.S("no attribute %s" % attr)))
 
     def apply_decorator(self, dname, fn, ci, st, fr):
@@ -937,6 +962,9 @@ class Executor(object):
         con = self.contracts.get((ci.module.relpath, ci.name + ".__init__"))
         obj = VObj(ci.name)
         st = st.set(obj, "__class__", cls)
+        # the object is built on this path by the real constructor code: its attribute set is known exactly
+        # (only then is a missing attribute a genuine AttributeError, see class_attr)
+        st = st.set(obj, "__constructed__", con is None)
         if self.is_subkind(ci.name, "BaseException"):
             st = st.set(obj, "__mro__", self.exc_mro(ci.name))
         outs = [(st, "ok", obj)]
